@@ -252,8 +252,13 @@ func (r *receiver) run(ctx context.Context) error {
 				var metaOnly bool
 				if metadataTransfer {
 					if path == metadataPath {
-						// not transferred, but it still occupies an id
+						// not transferred, but it still occupies an id, and
+						// it was announced: a later hard link to it is a
+						// valid entry of the listing
 						i++
+						if err := r.hlValidator.HandleChange(ChangeKindAdd, path, &StatInfo{p.Stat}, nil); err != nil {
+							return err
+						}
 						continue
 					}
 					n := p.Stat.SizeVT()
